@@ -50,6 +50,7 @@ class Ctx:
         self.bounds = {}
         self.notes = {}
         self.violations = []        # (signature, case)
+        self.unlisted_violations = 0   # further failures of work chunks whose first failures are listed with their call history
         self.known_hits = []
         self.known = load_known(prop)
         self.nontrivial = set()     # hashes of distinct non-trivial cases (bounded memory: ints)
@@ -93,6 +94,9 @@ class Ctx:
                 if k not in [h[0] for h in self.known_hits]:
                     self.known_hits.append((k, what))
                 return False
+        if case.get("preceding_omitted") and self.violations:
+            self.unlisted_violations += 1
+            return True
         self.violations.append((what, case))
         return True
 
@@ -146,14 +150,14 @@ class Ctx:
             "coverage": cov,
             "assumptions": self.assumptions,
             "wall_s": round(time.time() - self.t0, 2),
-            "violations": len(self.violations),
+            "violations": len(self.violations) + self.unlisted_violations,
         }
         with open(os.path.join(EVIDENCE_DIR, "%s.json" % self.prop), "w") as f:
             json.dump(ev, f, indent=1, sort_keys=True)
             f.write("\n")
         print("[%s %s] states=%d transitions=%d traces_validated=%d violations=%d known=%d wall=%.1fs" % (
             self.prop, self.tier, cov["states"], cov["transitions"], cov["traces_validated_against_impl"],
-            len(self.violations), len(self.known_hits), time.time() - self.t0))
+            len(self.violations) + self.unlisted_violations, len(self.known_hits), time.time() - self.t0))
         return replay_paths
 
 
@@ -203,7 +207,9 @@ class History:
         """Return `case` with the list of preceding cases (first few failures of the chunk only).
         Call BEFORE add() of the failing case."""
         if self.attached >= self.max_attached:
-            return case
+            out = dict(case)
+            out["preceding_omitted"] = True      # counted, but not listed: its call history was not recorded
+            return out
         self.attached += 1
         out = dict(case)
         out["preceding"] = [self.to_case(r) for r in self.raw]
